@@ -2125,6 +2125,10 @@ impl<S, T> Drop for Client<S, T> {
         let mut guard = self.client_server_map.lock();
         guard.remove(&(self.process_id, self.secret_key));
 
+        // However the client left (including a panic in its task), it must
+        // not stay listed in the statistics.
+        self.stats.disconnect();
+
         // Dirty shutdown
         // TODO: refactor, this is not the best way to handle state management.
         if self.connected_to_server && self.last_server_stats.is_some() {
